@@ -112,6 +112,18 @@ def check_cells(g, case, cells):
         raise Violation(f"cell2coord differs from the cell centre: "
                         f"{xy[:3].tolist()} vs {ex[:3].tolist()}, "
                         f"{ey[:3].tolist()} geometry {case_geom(case)}")
+    # the same cell numbers stored in narrower / unsigned integer types
+    for dt in (np.int32, np.uint8, np.int16, np.uint16, np.uint32, np.uint64,
+               np.int8):
+        if len(cells) and cells.min() >= np.iinfo(dt).min and \
+                cells.max() <= np.iinfo(dt).max:
+            cd = cells.astype(dt)
+            if not (np.array_equal(g.cell2rowcol(cd), rc)
+                    and np.array_equal(g.cell2coord(cd), xy)):
+                raise Violation(
+                    f"cell numbers given as {np.dtype(dt).name} "
+                    f"{cd.tolist()[:6]}: cell2rowcol / cell2coord differ from "
+                    f"the int64 call; geometry {case_geom(case)}")
     # one cell / one point at a time, scalars and plain lists
     c0 = int(cells[len(cells) // 2])
     one = g.cell2coord(c0)
